@@ -72,8 +72,12 @@ def same_components(a, b):
     a, b = canon_types(a), canon_types(b)
     if len(a) != len(b):
         return False
-    for x, y in zip(a, b):
+    for i, (x, y) in enumerate(zip(a, b)):
         if x == y:
+            continue
+        # the repeated element of a length-prefixed sequence: `Vec<X>` reads as u32, X*; a generic helper instantiated at X
+        # writes u32, X
+        if i > 0 and a[i - 1] == "u32" and b[i - 1] == "u32" and x.rstrip("*") == y.rstrip("*"):
             continue
         if x == "ANY*" and y.endswith("*") or y == "ANY*" and x.endswith("*"):
             continue
